@@ -555,3 +555,98 @@ def mon_release(ops, lines):
                 if blocking and rt[2:5] == ["PULL", "0", "0"]:
                     return "C12-pull-empty-after-delete: blocked Pull %s answered OK with no messages" % ot[1]
     return None
+
+
+def mon_abandon(ops, lines):
+    """C16 on the implementation's own answers: no half-created resource (every subscription that Get finds while
+    its topic is alive is listed by that topic) and nothing wedged (no call without an answer)."""
+    subs_found, listed, topic_of = set(), None, {}
+    for i, (o, r) in enumerate(zip(ops, lines)):
+        ot, rt = o.split(" "), r.split(" ")
+        if r.startswith("!"):
+            return "C16-wedged: op %d (%s) got %s" % (i, ot[0], r[:60])
+    # state right after the abandoned request: the first GS/LTS block
+    try:
+        x = next(i for i, o in enumerate(ops) if o.startswith("XC "))
+    except StopIteration:
+        return None
+    found = {}
+    for i in range(x + 1, len(ops)):
+        ot, rt = ops[i].split(" "), lines[i].split(" ")
+        if ot[0] == "GS" and rt[1:2] == ["0"]:
+            found[rt[2]] = rt[3]          # name -> topic string
+        elif ot[0] == "LTS" and rt[1:2] == ["0"]:
+            names = set(rt[3:3 + int(rt[2])])
+            for sub, topic in found.items():
+                if topic == ot[1] and sub not in names:
+                    return ("C16-half-created: subscription %r exists and names topic %r, but the topic does not "
+                            "list it" % (unhx(sub), unhx(topic)))
+            break
+        elif ot[0] in ("PUB", "CT", "CS", "DS", "DT"):
+            break
+    return None
+
+
+def mon_order_conc(ops, lines):
+    """C08 with concurrent publishers, read off the implementation's answers: every Publish returns one id per
+    message, consecutive and increasing; on every subscription the first deliveries are in increasing id order
+    (= the order in which the topic accepted the messages) and batches stay contiguous."""
+    batch_of = {}
+    for i, (o, r) in enumerate(zip(ops, lines)):
+        if r.startswith("!"):
+            return "C08-noanswer: op %d got %s" % (i, r[:60])
+        ot, rt = o.split(" "), r.split(" ")
+        res = None
+        if ot[0] == "PUB" and rt[:2] == ["PUB", "0"]:
+            res, k = rt[2:], int(ot[2])
+        elif ot[0] == "JOIN" and rt[2:4] == ["PUB", "0"]:
+            res = rt[4:]
+            src = next(x for x in ops if x.startswith("BG %s " % ot[1])).split(" ")
+            k = int(src[4])
+        if res is not None:
+            n = int(res[0])
+            ids = [int(unhx(x).decode()) for x in res[1:1 + n]]
+            if n != k:
+                return "C08-id-count: Publish of %d messages returned %d ids" % (k, n)
+            for a, b in zip(ids, ids[1:]):
+                if b != a + 1:
+                    return "C08-batch-ids: a Publish returned ids %d, %d (not consecutive increasing)" % (a, b)
+            for x in ids:
+                if x in batch_of:
+                    return "C09-id-reused: id %d returned by two Publish calls" % x
+                batch_of[x] = i
+    h = History(ops, lines)
+    if h.bad:
+        return "C08-" + h.bad
+    last, seen = {}, set()
+    for ev, d in h.deliveries():
+        key = (d.sub, d.mid)
+        if key in seen:
+            continue
+        seen.add(key)
+        v = int(unhx(d.mid).decode())
+        if d.sub in last and v < last[d.sub]:
+            return ("C08-first-delivery-order: on %r message %d was first delivered after message %d"
+                    % (unhx(d.sub), v, last[d.sub]))
+        if d.sub in last and v > last[d.sub] + 1 and (last[d.sub] + 1) in batch_of:
+            return "C08-skipped: on %r message %d was skipped before %d" % (unhx(d.sub), last[d.sub] + 1, v)
+        last[d.sub] = v
+    return None
+
+
+def mon_no_hang(ops, lines):
+    """C07: after the runtime was allowed to settle, every call has an answer."""
+    settled = False
+    for i, (o, r) in enumerate(zip(ops, lines)):
+        if r.startswith("!"):
+            return "C07-no-answer: op %d (%s) got %s" % (i, o.split(" ")[0], r[:60])
+        if o == "Q":
+            settled = True
+        if settled and o.startswith("JOIN ") and r.split(" ")[2:] == ["-"]:
+            src = next((x for x in ops if x.startswith("BG %s " % o.split(" ")[1])), "")
+            blocking = src.split(" ")[2:3] == ["PULL"] and src.endswith(" 0")
+            if not blocking:
+                return "C07-pending: call %s (%s) has no answer although the server is idle" % (o.split(" ")[1], src.split(" ")[2])
+    if len(lines) < len(ops):
+        return "C07-no-answer: the case stopped at op %d" % len(lines)
+    return None
